@@ -472,16 +472,20 @@ def perturb_args(rng, node, args, p=0.6):
     """New argument values of the same shapes/kinds; each leaf-spec redrawn with prob p.
     Index and flag arguments keep their representation (PyVal stays PyVal)."""
     out = []
-    for s, a in zip(node.arg_specs, args):
-        out.append(_perturb(rng, s, a, p))
+    for i, (s, a) in enumerate(zip(node.arg_specs, args)):
+        out.append(_perturb(rng, s, a, p, root_flag=(i == 0)))
     return tuple(out)
 
 
-def _perturb(rng, sp, a, p):
+def _perturb(rng, sp, a, p, root_flag=False):
     if sp[0] == "none":
         return None
     if sp[0] == "t":
         return tuple(_perturb(rng, s, x, p) for s, x in zip(sp[1], a))
+    if isinstance(a, PyVal) and not root_flag:
+        # a Python flag / index of a *nested* call fixes the static structure of the inner trace;
+        # changing it under an enclosing combinator's edit is a change of trace type, not an update
+        return a
     if rng.random() >= p:
         return a
     new = gen_value(rng, sp, concrete_flags=0.0)
